@@ -3064,18 +3064,18 @@ fn gen_chars(rng: &mut Rng, words: &[String]) -> CharItems {
     }
     match rng.below(24) {
         0 => items.push((if rng.chance(1, 2) { "a b".to_string() } else { "a b c d".to_string() }, rng.range(1, 5))),
-        1 | 2 | 3 | 4 => {
+        1..=8 => {
             // the relative-frequency filter: one heavy item puts frequency k at the threshold k / total < 1e-4
             let small: usize = items.iter().map(|x| x.1).sum();
             let k = rng.range(1, 5);
             // ... or well inside the band between 1e-4 and 1e-3
-            let t = if rng.chance(1, 2) { 10_000 } else { 3_000 };
+            let t = if rng.chance(1, 3) { 10_000 } else { 3_000 };
             let heavy = (t * k) as isize + rng.below(5) as isize - 2 - small as isize;
             if heavy > 0 {
                 items.push(("<bow> x <eow>".into(), heavy as usize));
             }
         }
-        5 => {
+        9 => {
             if let Some(x) = items.first_mut() {
                 x.1 = 0;
             }
